@@ -552,10 +552,11 @@ def rule_current_directory_tests(prog, fixture=False):
 
 
 def run(ctx):
+    from . import c01
     prog = ctx.prog("dfs", "N")
     return [rule_entry_fields(prog), rule_fragment_header(prog), rule_title(prog), rule_sign_extend(prog),
             rule_crc(prog), rule_report_provenance(prog), rule_sign_extension_use(prog),
-            rule_current_directory_tests(prog)]
+            rule_current_directory_tests(prog), c01.rule_opus_catalogue_slot(prog, rule_id="R-C02-6")]
 
 
 SELFTESTS = [
